@@ -10,6 +10,9 @@ import sys
 import types
 
 
+NEVER_STUB = {'msvcrt', 'winreg', 'nt', 'ntpath_ext', 'pwd_ext', 'readline', 'vms_lib', 'java', 'org', 'ce', 'riscos', 'pyimod02_importers', 'backports'}
+
+
 class _Stub(types.ModuleType):
     def __getattr__(self, n):
         if n.startswith('__'):
@@ -32,6 +35,8 @@ class _Finder(importlib.abc.MetaPathFinder, importlib.abc.Loader):
             return importlib.machinery.ModuleSpec(name, self, is_package=True)
         if '.' in name:
             return None
+        if top.startswith('_') or top in NEVER_STUB:
+            return None  # optional platform modules the standard library probes for (a stub would make it take the Windows paths)
         for f in sys.meta_path:
             if f is self:
                 continue
